@@ -87,7 +87,11 @@ RuleFailedFor(sc, rules, r, out, T) ==
                            : k \in DOMAIN r.sup}
         mustDrop(c) == \E q \in supCores : Contains(q, Cover(R, LocsOf(sc, c))) /\ 2 * Size(q) < R.L
         (* a superior group needing half the ring or more has no unique span: its real core may be anywhere *)
-        mayDrop(c) == \E q \in supCores \cup supCoresWide : Overlaps(q, Cover(R, LocsOf(sc, c))) \/ (R.circ /\ 2 * Size(q) >= R.L)
+        (* likewise an inferior group needing half the ring or more: its real core may run the other way round and
+           take in a superior core that the shortest cover does not touch *)
+        bigChain(c) == R.circ /\ 2 * ShortestCoverLen(R, FootprintOfAll(R, LocsOf(sc, c))) >= R.L
+        mayDrop(c) == \E q \in supCores \cup supCoresWide :
+                          Overlaps(q, Cover(R, LocsOf(sc, c))) \/ (R.circ /\ 2 * Size(q) >= R.L) \/ bigChain(c)
     IN  UNION {IF f(i) = {} THEN {"no_protocluster_without_anchoring_group"}
                ELSE CoreFailed(sc, r, f(i), out[i].core) : i \in mine}
         \cup UNION {ExtentFailed(sc, r, out[i].core, out[i].extent) : i \in mine}
